@@ -40,6 +40,27 @@ pub fn dispatch(prop: &str, cfg: &RunCfg, out: &Out) {
         "C16" => c16::run(cfg, out),
         "C17" => c17::run(cfg, out),
         "C18" => c18::run(cfg, out),
+        // self-test of the sanitizer pipeline (tools/asan_selftest.sh): a deliberate heap use-after-free in harness code
+        "SELFTEST_UAF" => {
+            let v: Vec<u64> = (0..64u64).collect();
+            let p = v.as_ptr();
+            drop(v);
+            let x = unsafe { std::ptr::read_volatile(p.add(3)) };
+            out.note(&format!("read {} from freed memory", x));
+        }
+        // self-test of the race detector: two threads write one word without synchronisation (harness code only)
+        "SELFTEST_RACE" => {
+            struct Cell(std::cell::UnsafeCell<u64>);
+            unsafe impl Sync for Cell {}
+            static SHARED: Cell = Cell(std::cell::UnsafeCell::new(0));
+            let hs: Vec<_> = (0..2u64)
+                .map(|i| std::thread::spawn(move || for k in 0..1000u64 { unsafe { *SHARED.0.get() = i * 1000 + k } }))
+                .collect();
+            for h in hs {
+                let _ = h.join();
+            }
+            out.note(&format!("last value {}", unsafe { *SHARED.0.get() }));
+        }
         other => out.inconclusive(&format!("no workload for {}", other)),
     }
     super::client::cleanup_scratch();
